@@ -21,43 +21,48 @@ import ChibiVerif.Model.C20Scope
 namespace ChibiVerif.Lemmas.C20
 open ChibiVerif ChibiVerif.Codegen ChibiVerif.Effect ChibiVerif.Asm ChibiVerif.Ast ChibiVerif.C20Scope
 
+/-- the type of code predicates: `K lo hi ls r x` — the code `ls`, printed while the label counter
+    `count()` went from `lo` to `hi`, has effect (r, x) -/
+abbrev CodeK := Nat → Nat → List Line → Int → Int → Prop
+
 /-- a predicate on printed code and an (rsp, x87) effect that holds of straight-line code with its
-    `delta` and is closed under concatenation -/
-class CodePred (P : List Line → Int → Int → Prop) : Prop where
-  lines : ∀ {ls : List Line} {r x : Int}, delta ls = some ⟨r, x⟩ → P ls r x
-  append : ∀ {a b : List Line} {r1 x1 r2 x2 : Int}, P a r1 x1 → P b r2 x2 → P (a ++ b) (r1 + r2) (x1 + x2)
+    `delta` and is closed under concatenation (the label counter only grows) -/
+class CodePred (P : CodeK) : Prop where
+  lines : ∀ {lo hi : Nat} {ls : List Line} {r x : Int}, delta ls = some ⟨r, x⟩ → lo ≤ hi → P lo hi ls r x
+  append : ∀ {lo mid hi : Nat} {a b : List Line} {r1 x1 r2 x2 : Int},
+    P lo mid a r1 x1 → P mid hi b r2 x2 → P lo hi (a ++ b) (r1 + r2) (x1 + x2)
 
 /-- straight-line code with effect (r, x) -/
-def Straight (ls : List Line) (r x : Int) : Prop := delta ls = some ⟨r, x⟩
+def Straight (_lo _hi : Nat) (ls : List Line) (r x : Int) : Prop := delta ls = some ⟨r, x⟩
 
 instance : CodePred Straight where
-  lines h := h
+  lines h _ := h
   append := by
-    intro a b r1 x1 r2 x2 h1 h2
+    intro lo mid hi a b r1 x1 r2 x2 h1 h2
     unfold Straight at *
     rw [delta_append, h1, h2]
     simp [H.add_def]
 
-def SemP (P : List Line → Int → Int → Prop) (m : M α) (r x d : Int) : Prop :=
-  ∀ s a s' ls, m s = .ok (a, s', ls) → P ls r x ∧ s'.depth = s.depth + d
+def SemP (P : CodeK) (m : M α) (r x d : Int) : Prop :=
+  ∀ s a s' ls, m s = .ok (a, s', ls) → P s.count s'.count ls r x ∧ s'.depth = s.depth + d
 
 /-- the straight-line judgment -/
 abbrev Sem (m : M α) (r x d : Int) : Prop := SemP Straight m r x d
 
-variable {K : List Line → Int → Int → Prop} [CodePred K]
+variable {K : CodeK} [CodePred K]
 
 omit [CodePred K] in
 theorem SemP.cast {m : M α} (h : SemP K m r x d) (hr : r = r') (hx : x = x') (hd : d = d') :
     SemP K m r' x' d' := by
   subst hr hx hd; exact h
 
-theorem P_nil : K [] 0 0 := CodePred.lines (by simp [delta, H.zero])
+theorem P_nil (n : Nat) : K n n [] 0 0 := CodePred.lines (by simp [delta, H.zero]) (Nat.le_refl n)
 
 theorem Sem_pure (a : α) : SemP K (pure a : M α) 0 0 0 := by
   intro s a' s' ls h
   simp only [pure, M.pure, Except.ok.injEq, Prod.mk.injEq] at h
   obtain ⟨_, rfl, rfl⟩ := h
-  exact ⟨P_nil, by simp⟩
+  exact ⟨P_nil _, by simp⟩
 
 theorem Sem_bind {m : M α} {f : α → M β} (h1 : SemP K m r1 x1 d1) (h2 : ∀ a, SemP K (f a) r2 x2 d2) :
     SemP K (m >>= f) (r1 + r2) (x1 + x2) (d1 + d2) := by
@@ -101,31 +106,31 @@ theorem Sem_emit {l : Line} (h : lineDelta l = some ⟨r, x⟩) : SemP K (emit l
   intro s a s' ls hm
   simp only [emit, Except.ok.injEq, Prod.mk.injEq] at hm
   obtain ⟨_, rfl, rfl⟩ := hm
-  exact ⟨CodePred.lines (by simp [delta, h, H.zero]), by simp⟩
+  exact ⟨CodePred.lines (by simp [delta, h, H.zero]) (Nat.le_refl _), by simp⟩
 
 theorem Sem_emits {ls : List Line} (h : delta ls = some ⟨r, x⟩) : SemP K (emits ls) r x 0 := by
   intro s a s' l hm
   simp only [emits, Except.ok.injEq, Prod.mk.injEq] at hm
   obtain ⟨_, rfl, rfl⟩ := hm
-  exact ⟨CodePred.lines h, by simp⟩
+  exact ⟨CodePred.lines h (Nat.le_refl _), by simp⟩
 
 theorem Sem_addDepth (k : Int) : SemP K (addDepth k) 0 0 k := by
   intro s a s' ls h
   simp only [addDepth, Except.ok.injEq, Prod.mk.injEq] at h
   obtain ⟨_, rfl, rfl⟩ := h
-  exact ⟨P_nil, by simp⟩
+  exact ⟨P_nil _, by simp⟩
 
 theorem Sem_getDepth : SemP K getDepth 0 0 0 := by
   intro s a s' ls h
   simp only [getDepth, Except.ok.injEq, Prod.mk.injEq] at h
   obtain ⟨_, rfl, rfl⟩ := h
-  exact ⟨P_nil, by simp⟩
+  exact ⟨P_nil _, by simp⟩
 
 theorem Sem_count : SemP K count 0 0 0 := by
   intro s a s' ls h
   simp only [count, Except.ok.injEq, Prod.mk.injEq] at h
   obtain ⟨_, rfl, rfl⟩ := h
-  exact ⟨P_nil, by simp⟩
+  exact ⟨CodePred.lines (by simp [delta, H.zero]) (Nat.le_succ _), by simp⟩
 
 theorem Sem_liftE (e : Except String α) : SemP K (liftE e) 0 0 0 := by
   cases e with
